@@ -21,6 +21,11 @@ def scenario(rng, k, crash=None, git=False, dirty=False):
     """crash = (step index, effect index) or None (counting pass)."""
     proj = G.base_project(rng, git=git)
     steps = [G.run_step(rng, 100, again=False, p_fail=0.35, jobs=rng.choice([None, 2]))]
+    if rng.random() < 0.35:     # (decided by the scenario's own generator: the crash variants are regenerated from the same seed)
+        # most experiments of the first invocation FAIL (their directories stay behind, unrecorded); the same command again
+        # within the same second plans the failed ones under the very identifiers they had - which must not be used again
+        steps[0]["exits"] = {nm: rng.choice([1, 3]) for _p, nm in G.EXPS if nm != "a" and rng.random() < 0.7}
+        steps.append(G.run_step(rng, 100 + rng.choice([0, 0, 1]), target="//:all", again=False, p_fail=0.0))
     if git:
         # the work tree after the checkout: clean | edited | edited and staged (work tree == index != HEAD) | a new file added
         # to the index | only an untracked file (which does not make the tree dirty)
